@@ -91,6 +91,7 @@ def variants(algo, tier):
     elif algo == "randomised_parafac":
         out.append(("random", {"init": "random", "n_samples": 12}, 3 if q else 6, True))
         out.append(("svd", {"init": "svd", "n_samples": 12}, 3 if q else 6, True))
+        out.append(("callback-only", {"init": "random", "n_samples": 12, "with_callback": True}, 3 if q else 6, True))
     elif algo == "cmtf":
         out.append(("svd", {"init": "svd"}, 3 if q else 6, True))
         out.append(("random-normalize", {"init": "random", "normalize_factors": True}, 3 if q else 6, True))
@@ -315,6 +316,13 @@ class C06(Check):
                     if not np.isfinite(e) or abs(e - te_cb) > atol:
                         ctx.violation(f"{tag}/callback-error-not-error-of-callback-decomposition",
                                       f"{case}: n_iter_max={k} ({how}): callback call #{j} got error {e!r}, recomputed {te_cb!r}")
+                        break
+            if algo == "randomised_parafac" and r.extra.get("callback_iterates"):
+                for j, (e, w_, fs_) in enumerate(r.extra["callback_iterates"]):
+                    te_cb = itm.relerr(X, itm.cp_dense(w_, fs_))
+                    if not np.isfinite(e) or abs(e - te_cb) > atol:
+                        ctx.violation(f"{tag}/callback-error-not-error-of-callback-decomposition",
+                                      f"{case}: callback call #{j} (after the initial one) got error {e!r}, recomputed {te_cb!r}")
                         break
             if algo.startswith("tensor_ring"):
                 for j, (e, cores) in enumerate(r.extra["callback_iterates"]):
